@@ -206,7 +206,8 @@ P02_Distinct(E) == \A e \in E : IsFrac(e.p) => Cardinality(Rng(e.grp)) = Len(e.g
 BaseFits(p, avail) == kinds[p].cpu <= avail.cpu /\ 1 <= avail.pods
 EnoughOnGpu(S, p, g) == nd.gpumem - S.am[g] + S.rm[g] - Mem(p) >= 0              \* enoughResourcesOnGpu
 FitOnGroup(S, p, g) == S.um[g] # 0 /\ EnoughOnGpu(S, p, g) /\ S.am[g] # S.rm[g]  \* IsTaskFitOnGpuGroup
-EnoughIdleOnGpu(S, p, g) == g \in S.ak /\ nd.gpumem - S.am[g] - Mem(p) >= 0      \* EnoughIdleResourcesOnGpu
+\* EnoughIdleResourcesOnGpu: a group whose AllocatedSharedGPUsMemory entry is missing or 0 holds no device
+EnoughIdleOnGpu(S, p, g) == g \in S.ak /\ S.am[g] > 0 /\ nd.gpumem - S.am[g] - Mem(p) >= 0
 FitGroups(S, p) == {g \in DOMAIN S.um : FitOnGroup(S, p, g)}
 MinI(a, b) == IF a < b THEN a ELSE b
 \* isTaskAllocatableOnNonAllocatedResources
